@@ -474,7 +474,7 @@ def main():
     lines = []
     # bounded executable companions (tools/witness.py): always in the thorough tier; as a stand-in when the proof is UNDECIDED
     wit_runs = []
-    if (undecided and not violations) or tier == "thorough":
+    if ((undecided and not violations) or tier == "thorough") and not os.environ.get("VERIF_NO_WITNESS"):   # VERIF_NO_WITNESS: dev aid (proof side only)
         try:
             import witness as W
             wit_runs = W.run_property(pid)
@@ -551,7 +551,7 @@ def write_replay(pid, f, results, reg):
     found = False
     witness = f.get("witness")
     try:
-        if witness is None:
+        if witness is None and not os.environ.get("VERIF_NO_WITNESS"):
             import witness as W
             witness = W.find(pid, f, results)
     except ImportError:
